@@ -240,16 +240,26 @@ def check_case(case):
         ra = observe.run(base, case["optargs"], name="a", want_atoms=True)
         if ra["error"]:
             return [], {"labels": ["base-error"]}
-        fed, ambiguous, nh = feed_back_hydrogens(base, ra)
+        src = ra
+        if case.get("all_hydrogens"):
+            # the hydrogens of a --protonate-all run are the program's own hydrogens as well
+            src = observe.run(base, list(case["optargs"]) + ["--protonate-all"], name="a", want_atoms=True)
+            if src["error"]:
+                return [], {"labels": ["base-error"]}
+        fed, ambiguous, nh = feed_back_hydrogens(base, src)
         if ambiguous:
             return [], {"labels": ["h-ambiguous"]}
         rb = observe.run(fed, list(case["optargs"]) + ["--keep-protons"], name="a")
         km = common.xyz_keymap(fed, base)
         diffs = observe.compare_records(ra, rb, tol=1e-9, keymap=km)
         v = [{"clause": "keep-protons-round-trip", "detail": common.fmt_diffs(diffs)}] if diffs else []
+        if case.get("all_hydrogens"):
+            for x in v:
+                x["sig"] = incomplete_sig(base, [d["key"] for d in diffs])
         stats = common.interaction_stats(ra)
         return v, {"nontrivial": nh > 0 and stats["with_dets"] >= 1,
-                   "labels": list(case.get("labels", [])) + ["keep-protons"]}
+                   "labels": list(case.get("labels", [])) + ["keep-protons" + ("-all" if case.get("all_hydrogens")
+                                                                                 else "")]}
     raise ValueError(kind)
 
 
@@ -359,6 +369,20 @@ def run_shard(ctx):
 
     ctx.hypothesis_stage("keep-protons", gen.structures(max_res=30 if quick else 60, allow_hetero=False), kp_body,
                          800 if quick else 12000)
+
+    def kpa_body(s):
+        case = {"kind": "keep-protons", "pdb": s.text, "optargs": [], "labels": [], "all_hydrogens": True}
+        v, info = check_case(case)
+        info["sample"] = {"structure": s.summary(), "clause": "all hydrogens of a --protonate-all run fed back with -k"}
+        ctx.account(case, v, info)
+
+    ctx.hypothesis_stage("keep-protons-all-hydrogens", gen.structures(max_res=30 if quick else 60, allow_hetero=False,
+                                                                       allow_clash=False), kpa_body,
+                         500 if quick else 8000)
+
+
+def _unused():
+    pass
 
 
 # ---- used by C19: the serial column never influences predictions -------------------------------------------------
